@@ -235,6 +235,8 @@ let judge _id (c : cursor) (r : cursor) : bool * string =
     let bs = read_beliefs c cx.s in
     let grid = grid_with_corners cx bs in
     let exact = (next c = "exact") in
+    (* discounts in (0.9999, 1): the unrepaired start value/std::max(0.0001, 1-discount) (fixes/C03-bound-init-guard.patch) *)
+    let gsfx = if q_lt (q_sub q_one m.pm.gam) (q_of_ints 1 10000) then "_guard" else "" in
     let rel = if exact then q_zero else q_of_ints 1 1000000000 in
     check_status "direct" r;
     (* ---- parse everything first *)
@@ -242,20 +244,29 @@ let judge _id (c : cursor) (r : cursor) : bool * string =
     and sP = "PBVI::operator()" and sE = "PERSEUS::operator()" in
     expect r "blindT"; let _ = fin sB r in let blindT = read_vlist sB cx.s r in
     expect r "blindF"; let _ = fin sB r in let blindF = read_vlist sB cx.s r in
-    let fibq = if repr = "dense" then begin expect r "fib"; let _ = fin sF r in Some (read_mat sF r) end else None in
+    let fibq = if repr <> "sparse" then begin expect r "fib"; let _ = fin sF r in Some (read_mat sF r) end else None in
     expect r "qmdp"; let _ = fin sQ r in let qq = read_mat sQ r in let qvl = read_vlist sQ cx.s r in
     expect r "pbvi"; let _ = fin sP r in let np = bounded_count sP r in let pbvi_full = take_n np (fun () -> read_vlist_full sP cx.s r) in let pbvi = List.map strip pbvi_full in
     expect r "perseus"; let _ = fin sE r in let ne = bounded_count sE r in let pers_full = take_n ne (fun () -> read_vlist_full sE cx.s r) in let pers = List.map strip pers_full in
     (* ---- O *)
     if List.length blindT <> cx.a || List.length blindF <> cx.a then oracle_fail "blind_shape" sB "one vector per action expected";
     List.iter (fun b ->
-        List.iter (fun (_, v) -> check_lb cx "blind_sound" sB "Blind(fasterConvergence) vector" b (dotq v b)) blindT;
+        List.iter (fun (_, v) -> check_lb cx ("blind_sound" ^ gsfx) sB "Blind(fasterConvergence) vector" b (dotq v b)) blindT;
         List.iter (fun (_, v) -> check_le_ev cx "blind_finite_sound" sB "Blind(finite) vector" (hB + 1) b (dotq v b)) blindF;
-        (match fibq with Some q -> check_ub cx "fib_sound" sF "FIB surface" b (lin_surface m q b) | None -> ());
+        (match fibq with Some q -> check_ub cx ("fib_sound" ^ gsfx) sF "FIB surface" b (lin_surface m q b) | None -> ());
         if hQ >= 1 then check_ge_ev cx "qmdp_sound" sQ "QMDP surface" hQ b (lin_surface m qq b);
         List.iteri (fun k vl -> check_le_ev cx "pbvi_sound" sP (Printf.sprintf "PBVI horizon-%d surface" k) k b (best_of vl b)) pbvi;
         List.iteri (fun k vl -> List.iter (fun (_, v) -> check_lb cx "perseus_sound" sE (Printf.sprintf "PERSEUS horizon-%d vector" k) b (dotq v b)) vl) pers
       ) grid;
+    (* premise of perseus_sound on the implementation's own start vector: k (1 - g) <= every reward *)
+    (match pers_full with
+     | v0 :: _ ->
+       List.iter (fun e -> List.iter (fun k ->
+           let lhs = q_mul k (q_sub q_one m.pm.gam) in
+           if not (le_tol lhs cx.rmin) then
+             oracle_fail "perseus_start_sound" sE (Printf.sprintf "start value %s times (1 - discount) = %s exceeds the minimal reward %s: not a lower bound of V*"
+                                                     (string_of_q k) (string_of_q lhs) (string_of_q cx.rmin))) e.vals) v0
+     | [] -> ());
     (* proof-carrying lower bounds: every PBVI / PERSEUS entry is the plan of its links over the previous list
        (C02.Spec.check_vf); pbvi_sound / perseus_sound then apply to the implementation's own lists *)
     let ptol = q_of_ints 1 100000000 in   (* R/|O| shares are not dyadic for |O| = 3 *)
@@ -268,9 +279,9 @@ let judge _id (c : cursor) (r : cursor) : bool * string =
     (* QMDP's VList is the list of columns of its Q-function *)
     List.iteri (fun a (_, v) -> if not (List.for_all2 q_eq v (qcol qq (nat a))) then oracle_fail "qmdp_vlist" sQ "VList entry is not the Q-function column") qvl;
     (* ---- C *)
-    let (_, mT) = blind_run m true (nat hB) q_zero in cmp_vecs ~rel "blind_run_fc" sB mT (List.map snd blindT);
+    let (_, mT) = blind_run m true (nat hB) q_zero in cmp_vecs ~rel ("blind_run_fc" ^ gsfx) sB mT (List.map snd blindT);
     let (_, mF) = blind_run m false (nat hB) q_zero in cmp_vecs ~rel "blind_run" sB mF (List.map snd blindF);
-    (match fibq with Some q -> let (_, mq) = fib_run m (nat hF) q_zero in cmp_vecs ~rel "fib_run" sF mq q | None -> ());
+    (match fibq with Some q -> let (_, mq) = fib_run m (nat hF) q_zero in cmp_vecs ~rel ("fib_run" ^ gsfx) sF mq q | None -> ());
     let (_, mq) = qmdp_run m (nat hQ) q_zero in cmp_vecs ~rel "qmdp_run" sQ mq qq;
     (hB >= 1 && hF >= 1 && cx.o >= 2, "direct-" ^ repr ^ (if exact then "-exact" else ""))
   | "conv" ->
@@ -373,6 +384,49 @@ let judge _id (c : cursor) (r : cursor) : bool * string =
       let ncert = if (not (at_end r)) && peek r = "events" then (expect r "events"; replay_events cx site b0 r) else 0 in
       (List.length vl >= 1, kind ^ (if ncert > 0 then "-events" else if ns > 0 then "-hook" else ""))
     end
+  | "perseus_d1" ->
+    let site = "PERSEUS::operator()" in
+    (match peek r with
+     | "THROW" -> (true, "perseus_d1")
+     | _ -> oracle_fail "perseus_rejects_discount1" site ("a model with discount 1 was accepted (no finite start value exists): " ^ String.concat " " (rest r)))
+  | "bpa" ->
+    let _hF = next_int c in
+    let m = read_pomdp c in
+    let cx = mk_ctx m in
+    let b = take_n cx.s (fun () -> next_q c) in
+    let site = "bestPromisingAction" in
+    check_status site r;
+    let ubq = read_mat site r in let ubv = read_ubv site cx.s r in
+    let rd tag = expect r tag; let a = next_int r in let v = fin site r in let vals = take_n cx.a (fun () -> fin site r) in (a, v, vals) in
+    let (sa, sv, svals) = rd "saw" in
+    let (la, lv, lvals) = rd "lp" in
+    let rel = q_of_ints 1 100000000 in
+    (* O: every per-action value must bound the action's value at every level:
+       vals[a] >= R(b,a) + g sum_o [ EV_n + g^n Rmin/(1-g) mass ](tau(b,a,o))   (best_promising_sound) *)
+    let massq t = List.fold_left q_add q_zero t in
+    let qlev n a =
+      let na = nat a in
+      let fut = List.fold_left (fun acc o ->
+          let t = tau_step_r m b na (nat o) in
+          q_add acc (q_add (eV_r m (nat n) t) (q_mul (tail_r m cx.rmin (nat n)) (massq t)))) q_zero (range 0 cx.o) in
+      q_add (rew_at m b na) (q_mul m.pm.gam fut) in
+    let nq = max 0 (cx.nmax - 1) in
+    List.iter (fun (clause, vals) ->
+        List.iteri (fun a x ->
+            for n = 0 to nq do
+              let lo = qlev n a in
+              if not (le_tol ~rel lo x) then
+                oracle_fail clause site (Printf.sprintf "vals[%d] = %s is below the action's %d-step value bound %s at belief [%s]" a (string_of_q x) (n + 1) (string_of_q lo) (str_qs b))
+            done) vals) [("best_promising_sound", svals); ("best_promising_lp_sound", lvals)];
+    List.iter (fun (a, v, vals) ->
+        if a < 0 || a >= cx.a then oracle_fail "best_promising_value" site "action out of range";
+        let mx = List.fold_left q_max (List.hd vals) vals in
+        if not (q_eq v mx && q_eq (List.nth vals a) v) then oracle_fail "best_promising_value" site "returned value is not the maximum of the per-action values") [(sa, sv, svals); (la, lv, lvals)];
+    (* C: the sawtooth variant against the model R(b,a) + g sum_o usurf(tau(b,a,o)) *)
+    List.iteri (fun a x ->
+        let mv = ub_backup m (ubq, ubv) b (nat a) in
+        if not (close_tol ~rel mv x) then disagree "ub_backup" site (Printf.sprintf "vals[%d]: model %s impl %s" a (string_of_q mv) (string_of_q x))) svals;
+    (List.length ubv >= 1, "bpa")
   | "cleanup" ->
     let _tol = next c in let s = next_int c in let a = next_int c in
     let _ubq = take_n (s * a) (fun () -> next_q c) in
